@@ -359,6 +359,7 @@ pub fn rename(p: &Program, regmap: &BTreeMap<Reg, Reg>, labelmap: &BTreeMap<Stri
                     Inst::R(op, a, b, c) => Inst::R(*op, mr(*a), mr(*b), mr(*c)),
                     Inst::I(op, a, b, i) => Inst::I(*op, mr(*a), mr(*b), *i),
                     Inst::Lui(a, i) => Inst::Lui(mr(*a), *i),
+                    Inst::Auipc(a, i) => Inst::Auipc(mr(*a), *i),
                     Inst::Li(a, i) => Inst::Li(mr(*a), *i),
                     Inst::Load(op, a, b, i) => Inst::Load(*op, mr(*a), mr(*b), *i),
                     Inst::Store(op, a, b, i) => Inst::Store(*op, mr(*a), mr(*b), *i),
